@@ -114,17 +114,25 @@ def aggregation_table(chk, fi: FuncInfo):
 
 
 def run(chk):
+    from rules.billing_agg import AGG_VALUES, RSS, RULES, SPEC as ASPEC, billing_outcomes
+    from engine.absint import NumpyTerms, Term
     chk.explanation = (
-        "The aggregation block of BillingModel.predict (and its sibling BillingWeightedModel.predict) is read as a table "
-        "column -> (aggregator, frequency variable) and compared with the property's table; the root-sum-square lambda is "
-        "matched structurally; the dispatch on `aggregation` is partially evaluated over a set of concrete argument values "
-        "(literal comparisons only) to show None/'none' -> no aggregation, 'monthly' -> 'MS', 'bimonthly' -> '2MS', anything "
-        "else -> ValueError before any aggregation; the aggregated frame is concatenated from exactly the aggregated series.")
+        "BillingModel.predict and its sibling BillingWeightedModel.predict are *interpreted from their AST* (the checker's own interpreter, "
+        "engine/pyinterp + engine/absint; nothing of the repository is imported or run) for every spelling of `aggregation` the property "
+        "names (None, 'none' in any case, 'monthly', 'bimonthly') and a set of values that must be rejected, with and without an `observed` "
+        "column, on an abstract model / data object / frame.  The frame returned by self._predict is a token; column selection, resample, "
+        "the reductions and pd.concat(axis=1) build a description (column, source frame, rule, reduction) of what is returned; the function "
+        "handed to .apply/.agg is recognised by applying it to a symbol, so sqrt(sum(x^2)) is the same whether it is a lambda, a module "
+        "function or (x**2).sum()**0.5.  The description is compared with the property's table.  Locals, helpers, constants and the shape "
+        "of the if/elif chain do not matter.")
     chk.not_decided += ["calendar arithmetic of DataFrame.resample across DST (pandas internals)", "that _predict's daily frame is right (C06/C07/C11)"]
-    chk.trusted += ["Resampler.sum/mean/first/apply aggregate exactly the rows of each calendar period (label='left', closed='left' defaults for MS)"]
-    r1 = chk.rule("R19.1", "aggregation table: predicted/observed/heating/cooling -> sum, temperature -> mean, predicted_unc -> sqrt(sum(x^2)), labels -> first; one frequency variable; every series concatenated axis=1", 12)
-    r2 = chk.rule("R19.2", "dispatch: None/'none' -> no aggregation, 'monthly' -> 'MS', 'bimonthly' -> '2MS', anything else raises ValueError before aggregating", 10)
-    r3 = chk.rule("R19.3", "the aggregation consumes the frame returned by self._predict and the aggregated frame is what is returned", 2)
+    chk.trusted += ["Resampler.sum/mean/first/apply aggregate exactly the rows of each calendar period (label='left', closed='left' defaults for MS)",
+                    "np.sum / Series.sum of a Series skip NaN rows; np.linalg.norm propagates them (so it is not accepted as root-sum-square)",
+                    "pd.concat drops None entries of the list it is given"]
+    r1 = chk.rule("R19.1", "aggregation table: predicted/observed/heating/cooling -> sum, temperature -> mean, predicted_unc -> sqrt(sum(x^2)), labels -> first; one frequency; every series concatenated axis=1", 12)
+    r2 = chk.rule("R19.2", "dispatch: None/'none' -> the daily frame unchanged, 'monthly' -> 'MS', 'bimonthly' -> '2MS', anything else raises ValueError", 10)
+    r3 = chk.rule("R19.3", "the aggregation consumes the frame returned by self._predict (called once, on the data object's frame) and the aggregated frame is what is returned", 2)
+    r4 = chk.rule("R19.4", "a column the data classes may leave out (conditional drop) does not make aggregation fail: temperature-only data aggregates without `observed`", 2)
 
     impls = []
     for modcls in (BILLING_MODEL, WEIGHTED_MODEL):
@@ -132,105 +140,9 @@ def run(chk):
         p = method(chk, c, "predict")
         if "aggregation" not in p.params:
             raise AnalysisError(f"{p.key} has no `aggregation` parameter")
-        if p.key not in [x.key for x in impls]:
-            impls.append(p)
-
-    tables: Dict[str, Dict[str, Tuple[str, str]]] = {}
-    for fi in impls:
-        cfg = CFG(fi.node)
-        rd = ReachingDefs(fi.node, cfg)
-        works = [st for st, _c in self_calls(fi, {"_predict"})]
-        if not works:
-            raise AnalysisError(f"{fi.key}: no self._predict call")
-        work = works[0]
-        src_name = work.targets[0].id if isinstance(work, ast.Assign) and isinstance(work.targets[0], ast.Name) else None
-        r3.require(src_name is not None, f"{fi.key}|predict-result-bound", fi.where(work), f"{fi.key}: result of self._predict is not bound to a name")
-        # ---- table
-        table: Dict[str, Tuple[str, str, str, ast.stmt]] = {}
-        series_names: Dict[str, str] = {}
-        for st in cfg.stmts():
-            if not isinstance(st, ast.Assign) or not isinstance(st.value, ast.Call) or not isinstance(st.value.func, ast.Attribute):
-                continue
-            c = st.value
-            inner = c.func.value
-            if isinstance(inner, ast.Call) and isinstance(inner.func, ast.Attribute) and inner.func.attr == "resample":
-                sel = inner.func.value
-                if isinstance(sel, ast.Subscript) and const_str(sel.slice) is not None:
-                    col = const_str(sel.slice)
-                    frame = unparse(sel.value)
-                    freq = unparse(inner.args[0]) if inner.args else unparse(kwarg(inner, "rule"))
-                    table[col] = (_agg_kind(fi, rd, st, c), freq, frame, st)
-                    if isinstance(st.targets[0], ast.Name):
-                        series_names[st.targets[0].id] = col
-        if len(table) < 6:
-            raise AnalysisError(f"{fi.key}: aggregation block not recognised ({len(table)} resample assignments)")
-        tables[fi.key] = {k: (v[0], v[1]) for k, v in table.items()}
-        freqs = {v[1] for v in table.values()}
-        frames = {v[2] for v in table.values()}
-        for col in REQUIRED:
-            r1.require(col in table, f"{fi.key}|column:{col}|present", fi.where(), f"{fi.key}: column `{col}` is not aggregated (dropped from the aggregated frame)")
-        for col, (kind, freq, frame, st) in sorted(table.items()):
-            want = SPEC.get(col)
-            if want is None:
-                r1.inst(f"{fi.key}|column:{col}|extra")
-                continue
-            r1.require(kind == want, f"{fi.key}|column:{col}|aggregator", fi.where(st),
-                       f"{fi.key}: `{col}` is aggregated with `{kind}`, the property requires `{want}`" + (" (root-sum-square of the daily uncertainties)" if want == "rss" else ""),
-                       sample={"function": fi.key, "column": col, "aggregator": kind, "frequency": freq})
-        r1.require(len(freqs) == 1, f"{fi.key}|one-frequency", fi.where(), f"{fi.key}: aggregated series use different frequencies {sorted(freqs)}; periods no longer line up")
-        r1.require(frames == {src_name}, f"{fi.key}|one-frame", fi.where(), f"{fi.key}: aggregation reads {sorted(frames)}, expected only the _predict result `{src_name}`")
-        # ---- concat of every aggregated series, axis=1, returned
-        concat = None
-        for st in cfg.stmts():
-            if isinstance(st, ast.Assign) and isinstance(st.value, ast.Call) and unparse(st.value.func) == "pd.concat" and st.value.args \
-                    and isinstance(st.value.args[0], (ast.List, ast.Tuple)):
-                names = [unparse(x) for x in st.value.args[0].elts]
-                if set(names) & set(series_names):
-                    concat = (st, names)
-        if concat is None:
-            r1.require(False, f"{fi.key}|concat", fi.where(), f"{fi.key}: aggregated series are never concatenated into a result frame")
-        else:
-            st, names = concat
-            cols = [series_names.get(n) for n in names]
-            for col in REQUIRED:
-                r1.require(col in cols, f"{fi.key}|concat:{col}", fi.where(st), f"{fi.key}: aggregated `{col}` is not part of the returned frame")
-            r1.require(len(names) == len(set(names)), f"{fi.key}|concat-dup", fi.where(st), f"{fi.key}: a series is concatenated twice")
-            ax = kwarg(st.value, "axis")
-            r1.require(ax is not None and unparse(ax) in ("1", "'columns'"), f"{fi.key}|concat-axis", fi.where(st), f"{fi.key}: aggregated series must be concatenated column-wise (axis=1)")
-            tgt = unparse(st.targets[0])
-            rets = [s for s in cfg.stmts() if isinstance(s, ast.Return)]
-            r3.require(all(unparse(r.value) == tgt for r in rets) and tgt == src_name, f"{fi.key}|returns-aggregated", fi.where(st),
-                       f"{fi.key}: the aggregated frame `{tgt}` is not what every return hands out")
-        # ---- dispatch by partial evaluation
-        freq_name = next(iter(freqs)) if len(freqs) == 1 else None
-        resample_stmts = [v[3] for v in table.values()]
-        cases = [(None, None), ("none", None), ("monthly", "MS"), ("bimonthly", "2MS"),
-                 ("weekly", "raise"), ("", "raise"), ("MS", "raise"), ("2MS", "raise"), ("quarterly", "raise"), ("yearly", "raise"),
-                 ("month", "raise"), ("bi-monthly", "raise"), ("daily", "raise")]
-        for val, want in cases:
-            tr = partial_eval(cfg, {"aggregation": val}, start=id(work))
-            agg_envs = [e for st in resample_stmts for e in tr.envs_at(st)]
-            got_freqs = {e.get(freq_name, "<unknown>") for e in agg_envs} if freq_name else set()
-            ends = {k for k, _s, _e in tr.ends}
-            raises = [s for k, s, _e in tr.ends if k == RAISE]
-            key = f"{fi.key}|dispatch:{val!r}"
-            if want == "raise":
-                ok = not agg_envs and ends == {RAISE}
-                cls_ok = all(isinstance(s, ast.Raise) and unparse(s.exc.func if isinstance(s.exc, ast.Call) else s.exc) == "ValueError" for s in raises)
-                r2.require(ok and cls_ok, key, fi.where(work),
-                           f"{fi.key}: aggregation={val!r} must be rejected with ValueError before any aggregation; "
-                           f"found ends={sorted(ends)} aggregated_with={sorted(map(str, got_freqs))}",
-                           sample={"aggregation": val, "expected": "ValueError"})
-            elif want is None:
-                r2.require(not agg_envs and ends == {EXIT}, key, fi.where(work),
-                           f"{fi.key}: aggregation={val!r} must return the daily frame unaggregated; found ends={sorted(ends)} aggregated_with={sorted(map(str, got_freqs))}",
-                           sample={"aggregation": val, "expected": "no aggregation"})
-            else:
-                r2.require(bool(agg_envs) and got_freqs == {want} and ends == {EXIT}, key, fi.where(work),
-                           f"{fi.key}: aggregation={val!r} must resample with {want!r}; found {sorted(map(str, got_freqs))} ends={sorted(ends)}",
-                           sample={"aggregation": val, "expected": want})
-    # ---- R19.4 optional columns are read only under a presence guard
-    r4 = chk.rule("R19.4", "a column the data classes may leave out (conditional drop) is aggregated only under a `\"col\" in frame.columns` guard", 2)
+        if p.key not in [x[0].key for x in impls]:
+            impls.append((p, c))
+    # which columns may be absent: conditional drops in the data classes' merge step
     optional = set()
     for modname in ("opendsm.eemeter.models.daily.data", "opendsm.eemeter.models.billing.data"):
         m = chk.repo.module(modname)
@@ -242,39 +154,70 @@ def run(chk):
                     names = [const_str(x) for x in (cols.elts if isinstance(cols, (ast.List, ast.Tuple)) else [cols])]
                     st = g.module.enclosing_stmt(c)
                     gcfg = gcfg or CFG(g.node)
-                    if gcfg.guards(st) and all(names):
-                        # only columns of the *output* frame matter: the function's result flows to the data frame
-                        if g.name in ("_merge_meter_temp",):
-                            optional |= set(names)
-    if not optional:
-        raise AnalysisError("R19.4: no conditionally dropped column found in the daily/billing data classes (anchor `_merge_meter_temp` moved?)")
-    for fi in impls:
-        cfg = CFG(fi.node)
-        for st in cfg.stmts():
-            if isinstance(st, (ast.If, ast.For, ast.While, ast.With, ast.Try)):
+                    if gcfg.guards(st) and all(names) and g.name in ("_merge_meter_temp",):
+                        optional |= set(names)
+    if optional != {"observed"}:
+        raise AnalysisError(f"R19.4: the conditionally dropped columns of the daily/billing data classes are {sorted(optional)} (expected ['observed']; anchor `_merge_meter_temp` moved?)")
+
+    summary = {}
+    for fi, cls in impls:
+        out = billing_outcomes(chk, fi, {"BillingModel", "DailyModel", cls.name})
+        summary[fi.key] = out
+        for (agg, wo), o in sorted(out.items(), key=lambda kv: (str(kv[0][0]), kv[0][1])):
+            key = f"{fi.key}|dispatch:{agg!r}" + ("" if wo else "|no-observed")
+            none_like = agg is None or (isinstance(agg, str) and agg.lower() == "none")
+            if none_like:
+                ok = o.get("returns") == "frame" and o["frame"] == {"frame": "predict", "ops": []} and o["predict_calls"] == 1
+                r2.require(ok, key, fi.where(), f"{fi.key}: aggregation={agg!r} must return the frame of self._predict unchanged; found {o}", sample={"aggregation": agg, "expected": "no aggregation"})
                 continue
-            for n in ast.walk(st):
-                if isinstance(n, ast.Subscript) and isinstance(n.ctx, ast.Load) and const_str(n.slice) in optional:
-                    col = const_str(n.slice)
-                    frame = unparse(n.value)
-                    guarded = any(pol and isinstance(t, ast.Compare) and len(t.ops) == 1 and isinstance(t.ops[0], ast.In)
-                                  and const_str(t.left) == col and unparse(t.comparators[0]) in (f"{frame}.columns", frame)
-                                  for t, pol in cfg.guards(st))
-                    r4.require(guarded, f"{fi.key}|optional-column:{col}", fi.where(st),
-                               f"{fi.key} reads `{frame}[\"{col}\"]` unconditionally, but the data classes leave `{col}` out when no usage was supplied "
-                               f"(temperature-only reporting data): aggregation raises KeyError for datasets without observed",
-                               sample={"function": fi.key, "column": col, "optional_because": "_merge_meter_temp drops it when all-NaN"})
-    # sibling cross-check
-    keys = list(tables)
-    if len(keys) == 2:
-        r1.require(tables[keys[0]] == tables[keys[1]], "siblings|BillingModel.predict~BillingWeightedModel.predict", impls[1].where(),
-                   f"the two billing predict implementations aggregate differently: {tables[keys[0]]} vs {tables[keys[1]]}")
-    # control for the rss matcher
-    ok = is_root_sum_square(ast.parse("lambda x: np.sqrt(np.sum(np.square(x)))", mode="eval").body) and \
-        is_root_sum_square(ast.parse("lambda v: (v ** 2).sum() ** 0.5", mode="eval").body) and \
-        not is_root_sum_square(ast.parse("lambda x: np.sum(np.sqrt(np.square(x)))", mode="eval").body) and \
-        not is_root_sum_square(ast.parse("lambda x: np.sqrt(np.mean(np.square(x)))", mode="eval").body) and \
-        not is_root_sum_square(ast.parse("np.linalg.norm", mode="eval").body)
-    if not ok:
-        raise AnalysisError("R19.1 root-sum-square matcher control failed")
-    r1.inst("control|rss-matcher")
+            if agg not in RULES:
+                r2.require(o.get("raises") == "ValueError", key, fi.where(), f"{fi.key}: aggregation={agg!r} must be rejected with ValueError; found {o}", sample={"aggregation": agg, "expected": "ValueError"})
+                continue
+            rule = RULES[agg]
+            if o.get("raises"):
+                (r4 if not wo and o["raises"] == "KeyError" else r2).require(False, key, fi.where(),
+                    f"{fi.key}: aggregation={agg!r} on data {'with' if wo else 'without'} an `observed` column raises {o['raises']}"
+                    + ("" if wo else " (the data classes leave `observed` out when no usage was supplied: temperature-only reporting data must still aggregate)"),
+                    sample={"aggregation": agg, "with_observed": wo})
+                continue
+            if not wo:
+                r4.inst(key)
+            ok_shape = o.get("returns") == "concat" and o.get("axis") in (1, "columns")
+            r1.require(ok_shape, f"{fi.key}|concat-axis|{agg}|{wo}", fi.where(), f"{fi.key}: aggregation={agg!r} must return the column-wise concat (axis=1) of the aggregated series; found {str(o)[:160]}")
+            if not ok_shape:
+                continue
+            r3.require(o["predict_calls"] == 1, f"{fi.key}|predict-once|{agg}|{wo}", fi.where(), f"{fi.key}: self._predict must be called exactly once on the data object's frame (called {o['predict_calls']} times)")
+            items = o["items"]
+            cols = [i.get("column") for i in items]
+            want_cols = [c_ for c_ in ASPEC if wo or c_ != "observed"]
+            for col in want_cols:
+                r1.require(cols.count(col) == 1, f"{fi.key}|column:{col}|present|{agg}|{wo}", fi.where(),
+                           f"{fi.key}: aggregation={agg!r}: column `{col}` appears {cols.count(col)} times in the aggregated frame (must be exactly once)")
+            for i in items:
+                col = i.get("column")
+                if col not in ASPEC:
+                    r1.require(col is not None and i.get("reduction") is not None, f"{fi.key}|column:{col}|extra", fi.where(), f"{fi.key}: unrecognised item {i} in the aggregated frame")
+                    continue
+                want = ASPEC[col]
+                r1.require(i["reduction"] == want, f"{fi.key}|column:{col}|aggregator", fi.where(),
+                           f"{fi.key}: `{col}` is aggregated with `{i['reduction']}`, the property requires `{want}`" + (" (root-sum-square of the daily uncertainties; NaN days skipped)" if want == RSS else ""),
+                           sample={"function": fi.key, "column": col, "aggregator": i["reduction"], "aggregation": agg})
+                r2.require(i["rule"] == rule, f"{fi.key}|dispatch:{agg!r}|frequency:{col}", fi.where(), f"{fi.key}: aggregation={agg!r}: `{col}` is resampled with {i['rule']!r} (must be {rule!r}): periods no longer line up",
+                           sample={"column": col, "rule": i["rule"], "expected": rule})
+                r3.require(i["from"] == "predict" and not i["from_ops"], f"{fi.key}|column:{col}|source", fi.where(),
+                           f"{fi.key}: aggregated `{col}` is read from the `{i['from']}` frame{' after ' + str(i['from_ops']) if i['from_ops'] else ''}; it must come from the frame returned by self._predict (the one whose usage was masked)",
+                           sample={"column": col, "from": i["from"], "ops": i["from_ops"]})
+    # sibling cross-check: same outcomes for every input
+    if len(impls) == 2:
+        a_, b_ = (summary[impls[0][0].key], summary[impls[1][0].key])
+        diff = [k for k in a_ if a_[k] != b_.get(k)]
+        r1.require(not diff, "siblings|BillingModel.predict~BillingWeightedModel.predict", impls[1][0].where(),
+                   f"the two billing predict implementations behave differently for aggregation/observed = {diff[:3]}: {a_[diff[0]] if diff else ''} vs {b_[diff[0]] if diff else ''}")
+    # controls for the symbolic recognition of the reduction
+    np_ = NumpyTerms()
+    x = Term("x")
+    ctl = [np_.sqrt(np_.sum(np_.square(x))).key() == RSS, ((x ** 2).sum() ** 0.5).key() == RSS, np_.sqrt(np_.sum(x * x)).key() == RSS,
+           np_.sum(np_.sqrt(np_.square(x))).key() != RSS, np_.sqrt(np_.mean(np_.square(x))).key() != RSS, np_.linalg.norm(x).key() != RSS]
+    if not all(ctl):
+        raise AnalysisError(f"R19.1 root-sum-square recognition control failed: {ctl}")
+    r1.inst("control|rss-recognition")
